@@ -316,6 +316,10 @@ def run(ctx):
   amb = [n for n in g.live_nodes() if n.kind == 'raise_stmt' and card_cases(facts[n.id], M) == {2, 3}]
   dflt = [n for n in g.live_nodes() if n.kind == 'return' and u(n.ast.value) == gm.params[2] and card_cases(facts[n.id], M) == {0}]
   other = [n for n in g.live_nodes() if n.kind in ('return', 'raise_stmt') and n not in rets and n not in amb and n not in dflt]
+  unreadable = [n for n in other if n.kind == 'return' and n.ast.value is not None
+                and u(n.ast.value).replace(' ', '') not in ('self._selector_map[%s[0]]' % M, gm.params[2])]
+  if unreadable:
+    raise AnalysisError('get_match returns `%s`: a result expression this rule cannot classify by the number of matches' % u(unreadable[0].ast.value))
   ok = ok and not other
   ctx.check(ok and amb and dflt, 'C08.exact-first', smc + '.get_match',
             'one match returns its value, several raise (ambiguous), none returns the default',
